@@ -70,6 +70,10 @@ def rule_current_preprocessor(repo, rep):
 
 def check(repo, rep, tier):
   rule_current_preprocessor(repo, rep)
+  # the prediction of a tuple is a function of THAT tuple: the distance atoms
+  # D(i, j) of the decision rules are computed for every pair of a batch
+  from . import c06b
+  c06b.rule_pair_distance_covers(repo, rep)
   R = 'R-FORM:decision-rule'
   rep.rule(R, 'decision_function / predict / score of the tuple classifiers '
            'normalise (comparison operators, slot indices, signs kept exact) '
